@@ -7,6 +7,7 @@ GROUPS = [
     G('trypop', 'h_trypop', 'lockfree_ring_buffer_trypop', 4, False),
     G('trypush', 'h_trypush', 'lockfree_ring_buffer_trypush', 6, True),
     G('trypop', 'h_trypop', 'lockfree_ring_buffer_trypop', 6, True),
+    dict(name='create', tu='ring.c', harness='h_create', mode='H', functions=['lockfree_ring_buffer_create'], unwind=2, exact_unwind=True),
     dict(name='lemmas', tu='lemmas.c', kind='lemmas', harness='', no_native='pure lemma', timeout=600),
 ]
 ASSUMPTIONS = ['A6 the 64-bit indices do not wrap (high < 2^62)', 'values pushed are non-NULL (documented precondition of trypush)',
